@@ -86,6 +86,24 @@ def gen_c01_io():
         for ep in ('append', 'write', 'read', 'iter'):
             body.append('Definition HAS_%s_%s : bool := %s.' % (ep, fmt, 'true' if hasattr(mod, '%s_%s' % (ep, fmt)) else 'false'))
         need(not getattr(mod, 'binary_fmt', False), '%s became a binary format' % fmt)
+    # plugin order of the sequence formats (main.py:83-103 detect, 105-121 detect_ext iterate FMTS_ALL['seqs']):
+    # which plugins have a sniffer is_<fmt>, and the file-name extension table, both in that order
+    from sugar._io.util import FMTS_ALL, EPS
+    order = list(FMTS_ALL['seqs'])
+    known = {'fasta', 'genbank', 'stockholm', 'gff', 'sjson'}
+    need(set(order) == known, 'sequence plugins changed: %r' % (order,))
+    sniff, exts = [], []
+    for fmt in order:
+        module = EPS['seqs'][fmt].load()
+        if hasattr(module, 'is_' + fmt):
+            sniff.append(fmt)
+        if hasattr(module, 'filename_extensions_' + fmt):
+            e = getattr(module, 'filename_extensions_' + fmt)
+            need(isinstance(e, (list, tuple)) and all(isinstance(x, str) for x in e), 'filename_extensions_%s' % fmt)
+            exts.append((fmt, list(e)))
+    body.append('Definition SEQ_SNIFF_ORDER : list str := [%s].' % '; '.join(blit(x) for x in sniff))
+    body.append('Definition SEQ_EXT_TABLE : list (str * list str) := [%s].'
+                % '; '.join('(%s, [%s])' % (blit(f), '; '.join(blit(x) for x in e)) for f, e in exts))
     emit('G_c01_io', 'sugar._io.fasta/stockholm/sjson/gff constants', '\n'.join(body) + '\n')
 
 
